@@ -190,6 +190,21 @@ Theorem C06_indexed_is_served :
 Proof. exact indexed_is_served. Qed.
 Print Assumptions C06_indexed_is_served.
 
+(* The scan of a restarted server skips nothing: every file still below the cache root after the restart —
+   whatever its own name or the names of the directories above it (all paths of the model are relative to the
+   cache root, whose own name is not an input of LruDiskCache::init) — is indexed with its size, has no temp name,
+   and is served complete. *)
+Theorem C06_restart_indexes_all :
+  forall (c : N) (d : disk) (ths : list thread) (sched : list nat) (n : nat) (c' : N),
+  disk_ok d -> forallb is_call ths = true ->
+  let w := exec (start c d ths) (firstn n sched) in
+  let s' := restart c' (ws w) in
+  forall k sz mt, alookup k (files (lru s')) = Some (sz, mt) ->
+    alookup k (index (lru s')) = Some sz /\ is_temp k = false /\
+    exists v, visible s' k = Some v /\ blen v = sz.
+Proof. exact restart_indexes_all. Qed.
+Print Assumptions C06_restart_indexes_all.
+
 (* ---------- non-vacuity ---------- *)
 
 Definition kx : list N := [97; 49; 98; 50].          (* "a1b2" *)
